@@ -259,6 +259,42 @@ def rule_castbind(facts):
     return r
 
 
+def rule_aliasnames(facts):
+    """The names a query announces are the user's aliases, one per aliased column. The map from alias to column used for *references* is
+    keyed by an identifier that compares case-insensitively, so it cannot hold two aliases that are equal ignoring case
+    (`SELECT 1 AS x, 2 AS x` announced `?column?, x`; `SELECT 1 AS "X", 2 AS x` announced the second column as `X`). The renaming
+    in SelectList::finalize therefore has to walk a per-column sequence, not that map: the index handed to `column_names.get_mut`
+    comes out of a Vec/slice iterator, never a hash-map iterator."""
+    r = RuleResult("C18-ALIASNAMES", "output column names are assigned from a per-column alias sequence, not from the deduplicating alias map", floor=1)
+    rec = [x for x in facts.fns_matching(lambda i: i.endswith("select_list::SelectList::finalize"))]
+    if not rec:
+        r.missing_anchor("SelectList::finalize")
+        return r
+    rec = rec[0]
+    fn = Fn(rec)
+    r.functions.add(fn.id)
+    n = 0
+    for c in fn.calls():
+        if not c.name.endswith("::get_mut") or len(c.args) < 2:
+            continue
+        recv = str(fn.origin(c.args[0], at=c.bb, through_calls=("::deref_mut", "::deref")))
+        if "column_names" not in recv and "DerefMut" not in recv:
+            continue
+        o = fn.origin(c.args[1], at=c.bb)
+        src = o[1].name if o[0] == "call" else str(o[0])
+        n += 1
+        from_map = "hash_map" in src or "HashMap" in src or "btree" in src.lower()
+        from_seq = ("vec::IntoIter" in src or "slice::Iter" in src or "Enumerate" in src) and not from_map
+        r.call_sites += 1
+        r.inst({"fn": fn.id, "line": c.line, "index_comes_from": src.split(" as ")[0].lstrip("<")}, from_seq)
+        if not from_seq:
+            r.violate(fn.id, "names-from-alias-map", "the output column names are assigned while iterating the alias map: aliases that are equal ignoring case collapse into "
+                      "one entry and the other column keeps its generated name", rec["file"], c.line)
+    if n == 0:
+        r.missing_anchor("SelectList::finalize: assignment of output column names")
+    return r
+
+
 def run(ctx):
     facts = ctx["facts"]
     consts = {c["id"]: c for c in facts.records("const")}
@@ -329,6 +365,7 @@ def run(ctx):
     res.append(rule_castbind(facts))
     from .c02 import rule_deadrule
     res.append(rule_deadrule(facts, rule="C18-DEADRULE"))
+    res.append(rule_aliasnames(facts))
     return res
 
 
@@ -339,7 +376,8 @@ CLAIM = {
             "dynamically computed types are not decided. Plus a guard rule: every conditional cast insertion in binder/planner (UNION branches, "
             "INSERT/VALUES, CASE, subquery and decimal comparisons) is controlled by inequality of the full DataType, so a branch cannot keep "
             "a type that differs from the announced one in precision/scale/unit. Plus: a function bind that delegates to a cast kernel announces exactly the cast's target type value as its return_type."
-            " Plus DEADRULE (shared with C02): the disabled RemoveRedundantGroups rewrite, which mistypes shifted group columns, is not applied.",
+            " Plus DEADRULE (shared with C02): the disabled RemoveRedundantGroups rewrite, which mistypes shifted group columns, is not applied."
+            " Plus ALIASNAMES: output column names are assigned from a per-column alias sequence, not from the case-insensitive alias map.",
     "note": "trusted: rustc HIR/MIR; id→physical and storage→physical maps are extracted from DataType::physical_type and "
             "ScalarStorage::PHYSICAL_TYPE in the code itself",
     "technique": "static analysis: const-table / MIR three-way agreement via registry instantiation walk (rustc_private driver)",
